@@ -190,4 +190,47 @@ def sealNewestOld (P : Params) (s : State) (t : Int) : State × Key :=
   | some k => if k.validAt t then (s, k) else current P s t t
   | none => current P s t t
 
+/-! ### The methods as the code has them (regenerated tie, Props/LeafC12.lean)
+
+  `generateNext`, `Get` and `Current` of provider.go are translated from the Go AST on every run
+  (Gen/LeafNtske.lean) and proved equal to the three definitions below for every provider state,
+  clock reading and random stream. They differ from the state machine above in what the state
+  machine leaves out: the `ID overflow` panic (`none`), the assignment `p.keys[id] = key` replacing an
+  entry of the same id, and the zero `Key{}` (both validity bounds the zero `time.Time`, year 1)
+  standing for a missing map entry. `Props/LeafC12.lean` proves that on every reachable state
+  (`Inv`) below the overflow they are the state machine's. -/
+
+/-- `math.MaxInt` -/
+def maxInt : Int := 9223372036854775807
+
+/-- the zero `time.Time{}` in ns relative to the Unix epoch (`Go.Time.zero`) -/
+def zeroTime : Int := -62135596800000000000
+
+/-- the zero `Key{}` -/
+def zeroKeyGo : Key := { id := 0, nb := zeroTime, na := zeroTime }
+
+/-- `(*Provider).generateNext` statement by statement: prune, overflow check, `currentID + 1`,
+    `p.keys[currentID] = key` -/
+def generateNextGo (P : Params) (s : State) (t : Int) : Option State :=
+  let kept := s.keys.filter (fun k => k.validAt t)
+  if s.currentId = maxInt then none
+  else
+    let id := s.currentId + 1
+    some { keys := { id := id, nb := t, na := t + P.validity } :: kept.filter (fun k => !(k.id == id))
+           currentId := id
+           generatedAt := t }
+
+/-- `(*Provider).Get`: `(Key{}, false)` or `(key, true)` -/
+def getGo (s : State) (id : Int) (t : Int) : Key × Bool :=
+  match find s.keys id with
+  | none => (zeroKeyGo, false)
+  | some k => if k.validAt t then (k, true) else (zeroKeyGo, false)
+
+/-- `(*Provider).Current`: `none` = the overflow panic inside `generateNext` -/
+def currentGo (P : Params) (s : State) (t1 t2 : Int) : Option (State × Key) :=
+  let key := (find s.keys s.currentId).getD zeroKeyGo
+  if !key.validAt t1 || decide (s.generatedAt + P.renewal < t1) then
+    (generateNextGo P s t2).map fun s' => (s', (find s'.keys s'.currentId).getD zeroKeyGo)
+  else some (s, key)
+
 end ScionTime.Provider
